@@ -65,7 +65,7 @@ func ruleC16InitializeGating(c *Ctx) {
 		c.verdictIf(okk, rule, f, fmt.Sprintf("sinkward call#%d %s", n, name), cs.Call.Pos(),
 			"reachable only when the index has no root (GetRootPath returned ErrNoRootDirectory)", "a tape/index-changing call ("+name+") is reachable although a root already exists: opening would append to or rebuild over an initialised filesystem")
 	}
-	if n < 3 {
+	if n < half(3) {
 		c.unresolved("only %d sink-reaching calls in Initialize (expected the rebuild and two root creations)", n)
 	}
 	// failure edge of recovery.Index must not lead to a destructive call
@@ -174,7 +174,7 @@ func ruleOverwriteProvenance(rule string) func(*Ctx) {
 				}
 			}
 		}
-		if n < 10 {
+		if n < half(10) {
 			c.unresolved("only %d NewTapeManager call sites found (expected 10)", n)
 		}
 		// inside OpenTapeWriteOnly: Truncate / SeekToRecordOnTape(…, 0) / opens without O_APPEND are control-dependent on `overwrite`
@@ -222,7 +222,7 @@ func ruleOverwriteProvenance(rule string) func(*Ctx) {
 				}
 				c.verdictIf(okk, rule, f, fmt.Sprintf("open#%d", k), cs.Call.Pos(), destructive+" only when overwrite was requested", destructive+" is reachable without overwrite having been requested: existing tape content can be destroyed on open")
 			}
-			if k < 4 {
+			if k < half(4) {
 				c.unresolved("only %d open/truncate sites classified in OpenTapeWriteOnly", k)
 			}
 		}
